@@ -310,7 +310,9 @@ RowClauses4(S, A, R, n, ph, r, sup, sel, kids, tol, ta, T) ==
         /\ DLeq(r.eff, Hund \oplus (Hund \otimes (KS \otimes (tol \oplus Atol))))),
      Cl("C02.Thermal.Rise", ~src /\ hasT, EqX(DJ(r.raw.trise), Rt(S, n) \otimes heat, Rt(S, n) \otimes heat, DZero)),
      Cl("C02.Thermal.Peak", ~src /\ hasT, EqX(DJ(r.raw.tpeak), ta \oplus DJ(r.raw.trise), DAbs(ta) \oplus DAbs(DJ(r.raw.trise)), DZero)),
-     Cl("C02.Thermal.Shown", ~src /\ ~hasT, DIsZero(Rt(S, n) \otimes heat)),
+     \* the columns are hidden when no row has a positive rise; a loss that is negative by an unconverged digit (0 Ohm element)
+     \* has a non-positive rise and does not force them to be shown
+     Cl("C02.Thermal.Shown", ~src /\ ~hasT, DLeq(Rt(S, n) \otimes heat, DZero)),
      \* ---- C03 : the returned table is a converged state for the REQUESTED tolerances, and physical
      Cl("C03.Residual.Vout", TRUE, VoutLaw(S, n, ph, sel, r.vin, r.iout, r.vout, tol)),
      Cl("C03.Residual.Iin",  TRUE, IinLaw(S, n, ph, sel, r.vin, r.iout, r.iin, tol)),
